@@ -400,9 +400,12 @@ pub fn run_request_with(env: &Env, w: &mut Wallet, m: &Model, ledger: &[NoteView
                 _ => amount + MIN_FEE,
             };
             if ub < need {
-                return Err(format!(
-                    "a proposal was returned although the spendable funds cannot cover the request: reference upper bound of spendable value {ub} < {need} (amount {amount} + minimum ZIP 317 fee {MIN_FEE}); target height {target}"
-                ));
+                let what = match req.entry {
+                    Entry::Shield => format!("shielding threshold {amount}, minimum ZIP 317 fee {MIN_FEE}"),
+                    Entry::SendMax => format!("minimum ZIP 317 fee {MIN_FEE}"),
+                    _ => format!("amount {amount} + minimum ZIP 317 fee {MIN_FEE}"),
+                };
+                return Err(format!("a proposal was returned although the spendable funds cannot cover the request: reference upper bound of spendable value {ub} < {need} ({what}); target height {target}"));
             }
             let (o, inputs, paid) = match &p {
                 AnyProp::Notes(p) => check_proposal(env, w, m, ledger, &utxos, req, amount, &pol, &ovr, &pools, p, cache)?,
@@ -787,39 +790,34 @@ pub fn lattice(level: usize) -> Lattice {
         for a in [Fixed(30_000), Fixed(100_000)] {
             for r in [Rcpt::Sapling, Rcpt::Unified] {
                 for c in confs {
-                    for l in [LockPol::Exclude, LockPol::PreferLockedX] {
-                        v.push(rq(Entry::Transfer, a, r, c, l, Chg::Single, Pools::All, false));
-                    }
+                    v.push(rq(Entry::Transfer, a, r, c, LockPol::Exclude, Chg::Single, Pools::All, false));
+                }
+                if a == Fixed(100_000) {
+                    v.push(rq(Entry::Transfer, a, r, Conf::Min, LockPol::PreferLockedX, Chg::Single, Pools::All, false));
                 }
             }
         }
-        for l in [LockPol::Exclude, LockPol::PreferUnlockedXY] {
-            v.push(rq(Entry::Transfer, UbMinus(MIN_FEE - 1), Rcpt::Sapling, Conf::Min, l, Chg::Single, Pools::All, false));
-        }
-        v.push(rq(Entry::Transfer, Fixed(1_000_000), Rcpt::Unified, Conf::Default, LockPol::Exclude, Chg::Single, Pools::All, false));
+        v.push(rq(Entry::Transfer, UbMinus(MIN_FEE - 1), Rcpt::Sapling, Conf::Min, LockPol::Exclude, Chg::Single, Pools::All, false));
         v.push(rq(Entry::Transfer, Fixed(30_000), Rcpt::Tex, Conf::Min, LockPol::Exclude, Chg::Single, Pools::All, false));
-        v.push(rq(Entry::Transfer, Fixed(100_000), Rcpt::Sapling, Conf::Min, LockPol::PreferUnlockedX, Chg::Split, Pools::All, false));
         for c in confs {
             for l in [LockPol::Exclude, LockPol::PreferUnlockedXY] {
                 v.push(rq(Entry::SendMax, Fixed(0), Rcpt::Sapling, c, l, Chg::Single, Pools::All, false));
             }
         }
-        v.push(rq(Entry::SendMax, Fixed(0), Rcpt::Unified, Conf::Min, LockPol::PreferUnlockedX, Chg::Single, Pools::All, false));
-        for c in [Conf::Min, Conf::NoZeroConf] {
-            v.push(rq(Entry::Shield, Fixed(10_000), Rcpt::Sapling, c, LockPol::Exclude, Chg::Single, Pools::All, false));
-        }
+        v.push(rq(Entry::Shield, Fixed(10_000), Rcpt::Sapling, Conf::Min, LockPol::Exclude, Chg::Single, Pools::All, false));
         v.push(rq(Entry::Transfer, Fixed(100_000), Rcpt::Sapling, Conf::Min, LockPol::Exclude, Chg::Single, Pools::AllPlusTransparent, false));
         Lattice {
             reqs: v,
-            describe: "core: propose_transfer {30k,100k} x {Sapling,UA/Orchard} x {MIN,3/10} x {Exclude,PreferLocked{X}}; UB-9999 to Sapling under MIN x {Exclude,PreferUnlocked{X,Y}}; 1M to UA under 3/10; 30k to TEX; 100k split change PreferUnlocked{X}; \
-                       propose_send_max_transfer (MaxSpendable: selects every eligible note) to Sapling x {MIN,3/10} x {Exclude,PreferUnlocked{X,Y}} and to UA under MIN PreferUnlocked{X}; propose_shielding threshold 10k x {MIN,1/2 without zero-conf}; propose_transfer 100k with transparent spending permitted"
+            describe: "core: propose_transfer {30k,100k} x {Sapling,UA/Orchard} x {MIN,3/10} Exclude and 100k x 2 recipients MIN PreferLocked{X}; UB-9999 to Sapling under MIN; 30k to TEX; \
+                       propose_send_max_transfer (MaxSpendable: selects every eligible note) to Sapling x {MIN,3/10} x {Exclude,PreferUnlocked{X,Y}}; propose_shielding threshold 10k under MIN; propose_transfer 100k with transparent spending permitted"
                 .into(),
         }
     }
 }
 
-/// Evaluate the whole lattice in one state. Returns outcome labels and violations (request key, message, request).
-pub fn eval_state(env: &Env, w: &mut Wallet, m: &Model, lat: &Lattice) -> (Vec<String>, Vec<(Option<Req>, String)>, u64) {
+/// `stop` is polled between requests; when it fires the evaluation of this state is abandoned and
+/// the last component of the result is false (the caller reports the cap).
+pub fn eval_state(env: &Env, w: &mut Wallet, m: &Model, lat: &Lattice, stop: &dyn Fn() -> bool) -> (Vec<String>, Vec<(Option<Req>, String)>, u64, bool) {
     let te = std::time::Instant::now();
     let ledger = m.ledger(env);
     let mut cache = WitnessCache::default();
@@ -830,6 +828,9 @@ pub fn eval_state(env: &Env, w: &mut Wallet, m: &Model, lat: &Lattice) -> (Vec<S
     // amount paid by the MaxSpendable send-max proposal per (rcpt, conf, lockpol, pools)
     let mut max_paid: HashMap<(Rcpt, Conf, LockPol, Pools), u64> = HashMap::new();
     for r in &lat.reqs {
+        if stop() {
+            return (outs, fails, n, false);
+        }
         let mp = max_paid.get(&(r.rcpt, r.conf, r.lockpol, r.pools)).copied();
         n += 1;
         match run_request_with(env, w, m, &ledger, r, &mut cache, mp) {
@@ -864,5 +865,5 @@ pub fn eval_state(env: &Env, w: &mut Wallet, m: &Model, lat: &Lattice) -> (Vec<S
         fails.push((None, format!("proposals without a lock request changed the lock state: before {before:?} after {after:?}")));
     }
     EVAL_NS.fetch_add(te.elapsed().as_nanos() as u64, std::sync::atomic::Ordering::Relaxed);
-    (outs, fails, n)
+    (outs, fails, n, true)
 }
